@@ -125,7 +125,7 @@ PUBLISH = dict(sub="publish", mode="publish", family="publish", shards=q(4, 16),
 
 def c15(prop, tier, res, replay=None):
     return pure.check_cases(prop, tier, res, [PUBLISH], [
-        "modelled: the global direct path POST /messages/publish (three validation passes + one EnqueueBatch against the queue model, with the implementation's eviction choice); the endpoint-scoped path is driven through the real handler too but only the all-or-nothing / shape predicate is evaluated on it (its selector rules are not modelled)",
+        "modelled: the global direct path POST /messages/publish (three validation passes + one EnqueueBatch against the queue model, with the implementation's eviction choice) and the endpoint-scoped path (Model/PublishScoped: scoped switch, endpoint resolution, audit with actor policy, route policy, parse loop, selector hints, target, envelope, stored ids, one EnqueueBatch); both are compared step by step and judged by spec-level predicates that do not depend on the handler's check order",
         "not modelled (answer before the modelled path): global_publish_disabled, audit header policy, JSON decoding errors and body-size limit, management-model cross checks (SourceMismatch, fail-closed resolver), a LookupMessages error, the non-batch fallback loop for stores without EnqueueBatch (every shipped store has it)",
         "configurations are generated as text through the real parser/compiler/runtime wiring (publish_policy, route publish flags, managed labels, max_body/max_headers); stores are the real memory and SQLite stores with small max_depth (reject and drop_oldest), pre-filled; timestamps are RFC 3339 within 1000 s of the clock; strings.TrimSpace is modelled on the white-space set {SP,\\t,\\n,\\v,\\f,\\r,U+0085,U+00A0} (generated ids/targets use only those)"], replay)
 
